@@ -97,6 +97,11 @@ class EncodeState:
 
         raw_value: AtomicOdxType
 
+        if base_data_type in (DataType.A_INT32, DataType.A_UINT32) and bit_length > 64:
+            # (this is the limit of the bitstruct module)
+            raise EncodeError(f"Integer objects cannot be longer than 64 bits "
+                              f"(specified bit length: {bit_length})")
+
         # Deal with raw byte fields, ...
         if base_data_type == DataType.A_BYTEFIELD:
             if not isinstance(internal_value, BytesTypes):
